@@ -4,6 +4,8 @@ Driver for C20: reads the cases the Go harness produced by running the REAL auth
      db-collision` when the recorded deviation clause `Spec.Dev_db_collision` explains exactly this failure),
   2. compares the observed output with the MODEL (Kap/Model/C20.lean) — a difference is `MISMATCH`.
 A case gets the worst verdict of its lines (SPECFAIL > MISMATCH > KNOWN > ok).
+Write requests with a full query string (op httpq): the clause `write-checks-api-and-database` is evaluated on the
+database the points were OBSERVED to be written to — the spec knows nothing of `rp`, `precision`, `consistency`.
 
 Strings are BYTE strings: every token is unescaped to bytes and read as Latin-1 (byte b = the character with code
 b, `B.emb`), never UTF-8-decoded, so paths that are not valid UTF-8 are judged like any other; on every path op the
@@ -188,15 +190,24 @@ def mkCfg (st : St) (ra : String) : Cfg :=
     svc := { users := st.users, subs := st.subs }, extra := harnessRoutes }
 
 /-- Judge one observed HTTP exchange (URL path as the handler received it). -/
-def judgeHttp (st : St) (l : String) (cfg : Cfg) (req : Req) (code sv wr : String) : St := Id.run do
+def judgeHttp (st : St) (l : String) (cfg : Cfg) (req : Req) (code sv wr : String)
+    (wobs : Option (Option (List Char × List Char)) := none) : St := Id.run do
   let mut st := st
   let p := req.path
   let out := serveHTTP cfg 2 req
   let served := sv == "1"; let wrote := wr == "1"
   if served && !Spec.servedOK cfg.requireAuth cfg.exposePprof cfg.svc req then
     st := st.sf "served-only-authenticated-and-authorised" l
-  if wrote && !Spec.wroteOK databaseResource cfg.requireAuth cfg.svc req then
-    st := st.sf "write-checks-api-and-database" l
+  -- the TARGET database: where the points were observed to go (op httpq), else the db parameter of the request
+  let target : List Char := match wobs with | some (some (wdb, _)) => wdb | _ => req.db
+  if wrote && !Spec.wroteTargetOK databaseResource cfg.requireAuth cfg.svc req target then
+    st := st.sf "write-checks-api-and-database" s!"{l} (points written to database {escL target})"
+  match wobs with
+  | some w =>
+    if wrote != w.isSome then st := st.mm s!"{l}: written flag and observed write target disagree"
+    if let some t := w then
+      if t ≠ writeTarget req then st := st.mm s!"{l}: model writes to {escL (writeTarget req).1} {escL (writeTarget req).2}"
+  | none => pure ()
   if (served || wrote) && muxCleanPath p ≠ p then
     st := st.sf "path-trick-never-served" l
   -- whatever is served was authorised as a resource below /api (never /database/…, never the root)
@@ -212,6 +223,52 @@ def judgeHttp (st : St) (l : String) (cfg : Cfg) (req : Req) (code sv wr : Strin
     st := st.br "http-clean-url-resource-outside-api"
   if cfg.requireAuth && (served || wrote) then st := { st with nontrivial := true }
   return st
+
+/-- `-` | `k=v&k=v…` (keys and values escaped, order kept). -/
+def parseQuery (tok : String) : Option Query :=
+  if tok == "-" then some [] else
+  (tok.splitOn "&").mapM fun e =>
+    match e.splitOn "=" with
+    | [k, v] => do pure ((← unescL k), (← unescL v))
+    | _ => none
+
+/-- The account the chain let through would have passed a check against `res` (what a check against some OTHER
+resource than the target database would have answered). -/
+def wouldAllow (u : Option Account) (res : Path) : Bool :=
+  match u with
+  | some a => authorizeAction a.user res writePriv = .allow
+  | none => false
+
+/-- What the URL parameters of a write request exercise (op httpq). The `write-refused-…` branches are the inputs on
+which a check against anything but the target database would answer differently: read off the model's refusal (401
+after authentication and API authorisation) and the grant table of the account. -/
+def writeBranches (q : Query) (req : Req) (out : HttpOut) : List String :=
+  let hasRp := q.any (fun e => e.1 = "rp".toList)
+  let segs := split req.rp
+  let rpShape :=
+    if !hasRp then ["rp-absent"]
+    else if req.rp = [] then ["rp-empty"]
+    else (if segs.contains dotdot then ["rp-dotdot"] else []) ++
+         (if isAbs req.rp then ["rp-absolute"] else []) ++
+         (if req.rp.contains '/' then ["rp-with-slash"] else []) ++
+         (if req.rp.contains '%' then ["rp-percent-literal"] else []) ++
+         (if !req.rp.contains '/' ∧ !segs.contains dotdot ∧ !req.rp.contains '%' then ["rp-plain"] else [])
+  let dup := if (q.filter (fun e => e.1 = "db".toList)).length > 1 then ["db-given-twice"] else []
+  let dupRp := if (q.filter (fun e => e.1 = "rp".toList)).length > 1 then ["rp-given-twice"] else []
+  let others := (req.params.map (fun e => "param-" ++ (escL e.1).replace "%" "~")).eraseDups
+  let refused := out.status = 401 ∧ out.user.isSome
+  let acct := out.user.getD {}
+  let dbNode := Spec.nodeOf (databaseResource req.db)
+  let decisive :=
+    if !refused then (if out.wrote ∧ req.rp ≠ [] ∧ !wouldAllow out.user (pathJoin2 (databaseResource req.db) req.rp) then ["write-allowed-though-rp-resource-refused"] else [])
+    else
+      (if wouldAllow out.user (pathJoin2 (databaseResource req.db) req.rp) then ["write-refused-though-rp-resource-granted"] else []) ++
+      (if wouldAllow out.user Gen.databaseRootResource then ["write-refused-none-on-target-below-database-grant"] else []) ++
+      (if acct.grants.any (fun g => match Spec.nodeOf g.1, dbNode with
+            | some n, some d => n.length = 2 ∧ n.head? = some "database".toList ∧ n ≠ d ∧ Spec.listed g.2 Spec.pWrite
+            | _, _ => false) then ["write-refused-other-database-granted"] else []) ++
+      (if !acct.grants.any (fun g => (Spec.nodeOf g.1).map (·.head?) = some (some "database".toList)) then ["write-refused-api-write-only"] else [])
+  (rpShape ++ dup ++ dupRp ++ others ++ decisive).map ("wq-" ++ ·)
 
 def hasSub (s : List Char) (sub : String) : Bool := ((String.ofList s).splitOn sub).length > 1
 
@@ -328,6 +385,26 @@ def judge (_id : String) (lines : Array String) : Verdict := Id.run do
       let req : Req := { method := m, path := p, auth := au, db := db }
       match obs with
       | [code, sv, wr] => st := judgeHttp st l (mkCfg st ra) req code sv wr
+      | _ => st := st.mm s!"{l}: unexpected observation"
+    | ["httpq", ra, m, p, cred, qTok] =>
+      let some m := unescL m | return .badop l
+      let some p := unescL p | return .badop l
+      let some q := parseQuery qTok | return .badop l
+      let some au := parseAuth cred | return .badop l
+      let req : Req := ({ method := m, path := p, auth := au } : Req).withQuery q
+      match obs with
+      | [code, sv, wr, wdb, wrp] =>
+        let w : Option (Option (List Char × List Char)) :=
+          if wdb == "!" then some none else
+          match unescL wdb, unescL wrp with
+          | some a, some b => some (some (a, b))
+          | _, _ => none
+        if w.isNone then return .badop l
+        let cfg := mkCfg st ra
+        st := judgeHttp st l cfg req code sv wr w
+        let bs := writeBranches q req (serveHTTP cfg 2 req)
+        st := st.brs bs
+        if bs.any (fun b => b.startsWith "wq-write-refused-though") then st := { st with nontrivial := true }
       | _ => st := st.mm s!"{l}: unexpected observation"
     | ["httpraw", ra, m, t, cred, db] =>
       let some m := unescL m | return .badop l
